@@ -32,7 +32,7 @@ func checkDefs() map[string]*CheckDef {
 			Runs: func(tier string) []RunSpec {
 				return []RunSpec{
 					{Name: "sort", Pkg: ioc + "/util/framework_helper", Entry: "VerifC12Sort", Params: map[string]int{"N": tierPick(tier, 5, 6)}, MustCover: []string{"sorted"}},
-					{Name: "processors-call-site", Pkg: ioc + "/container/factory", Entry: "VerifC12Processors", Params: map[string]int{"K": tierPick(tier, 3, 4)}, MustCover: []string{"callbacks checked", "eager processor"}},
+					{Name: "processors-call-site", Pkg: ioc + "/container/factory", Entry: "VerifC12Processors", Params: map[string]int{"K": tierPick(tier, 3, 4), "DECORATE": 1}, MustCover: []string{"callbacks checked", "eager processor", "a processor component decorated by an earlier processor"}},
 					{Name: "runners-call-site", Pkg: ioc + "/app", Entry: "VerifC13", Params: map[string]int{"N": 3, "FAULTS": 0}, MustCover: []string{"all runners ok"}},
 					{Name: "loaders-call-site", Pkg: ioc + "/configure", Entry: "VerifC15Load", Params: map[string]int{"N": 3}, MustCover: []string{"several loaders"}},
 				}
@@ -48,7 +48,7 @@ func checkDefs() map[string]*CheckDef {
 				return []RunSpec{
 					{Name: "total", Pkg: ioc + "/component_definition", Entry: "VerifC19Total", Params: map[string]int{"N": tierPick(tier, 5, 6)}},
 					{Name: "required", Pkg: ioc + "/component_definition", Entry: "VerifC19Required", Params: map[string]int{"N": tierPick(tier, 4, 5)}, MustCover: []string{"parsed"}},
-					{Name: "faithful", Pkg: ioc + "/component_definition", Entry: "VerifC19Faithful", Params: map[string]int{"L": tierPick(tier, 1, 2)}, MustCover: []string{"bracketed item", "bracketed value"}},
+					{Name: "faithful", Pkg: ioc + "/component_definition", Entry: "VerifC19Faithful", Params: map[string]int{"L": tierPick(tier, 1, 2)}, MustCover: []string{"bracketed item", "bracketed value", "several valued arguments"}},
 					{Name: "required-faithful", Pkg: ioc + "/component_definition", Entry: "VerifC19RequiredFaithful", Params: map[string]int{"X": 5}, MustCover: []string{"optional"}},
 				}
 			},
@@ -159,7 +159,7 @@ func checkDefs() map[string]*CheckDef {
 			Runs: func(tier string) []RunSpec {
 				return []RunSpec{
 					{Name: "run", Pkg: app, Entry: "VerifC13", Params: map[string]int{"N": tierPick(tier, 3, 4), "FAULTS": 1}, MustCover: []string{"all runners ok", "runner failed", "start-up fault"}},
-					{Name: "integration", Pkg: app, Entry: "VerifAppIntegration", Params: map[string]int{"N": tierPick(tier, 3, 4), "R": 2}, MustCover: []string{"start ok", "component init fails"}, Opts: ExecOpts{Sched: "seq", PermuteRange: tier == "thorough", PermuteCoarse: true}},
+					{Name: "integration", Pkg: app, Entry: "VerifAppIntegration", Params: map[string]int{"N": tierPick(tier, 3, 4), "R": 2}, MustCover: []string{"start ok", "component init fails", "lazy runner"}, Opts: ExecOpts{Sched: "seq", PermuteRange: tier == "thorough", PermuteCoarse: true}},
 				}
 			},
 			LevelText: "Bounded symbolic model checking of the real App.run/initConfiguration/initFactory/refresh/callRunners with a logging stub factory: for every multiset of up to N runners (three classes, unconstrained 64-bit Order), every choice of failing runner and every failing start-up phase: no runner before refresh finished, each at most once and in the ordering contract's sequence, exactly once if none fails, nothing after a failing runner, run returns an error exactly when something failed.",
@@ -173,12 +173,12 @@ func checkDefs() map[string]*CheckDef {
 				}
 			},
 			LevelText: "Bounded symbolic model checking of the real App.Close with engine goroutines, WaitGroup and channel models under the adversarial-join schedule (spawned goroutines run only when the parent blocks or returns, in every order; the parent resumes as early as possible): at the instant Close returns every closer ran exactly once and returned, for 0..N closers and every subset that fails.",
-			LevelNote: "Bound N closers (quick 5, thorough 6) under every join schedule, plus 16/17/18/33 closers under one fixed sequential schedule (batch and pool boundaries). Preemption inside a closer body is not explored (closer bodies share nothing but the WaitGroup). select is unsupported (inconclusive). Honest note: the quantified variables here (closer count, failing subset, schedule) are all explored by forking; the solver only decides feasibility of the few data-dependent branches.",
+			LevelNote: "Bound N closers (quick 5, thorough 6) under every join schedule, plus 16/17/18/33 closers under one fixed sequential schedule (batch and pool boundaries). Preemption inside a closer body is not explored (closer bodies share nothing but the WaitGroup). select and timers are modelled (a timer may fire at any moment; closers are marked as arbitrarily slow). Honest note: the quantified variables here (closer count, failing subset, schedule) are all explored by forking; the solver only decides feasibility of the few data-dependent branches.",
 			Technique: techDefault + "; goroutine schedules as symbolic choices", DesignRef: "DESIGN.md §3 C14"},
 		&CheckDef{ID: "C15", Title: "Configuration sources",
 			Runs: func(tier string) []RunSpec {
 				return []RunSpec{
-					{Name: "options", Pkg: app, Entry: "VerifC15Options", Params: map[string]int{"K": tierPick(tier, 3, 4)}, MustCover: []string{"file added", "loader added"}},
+					{Name: "options", Pkg: app, Entry: "VerifC15Options", Params: map[string]int{"K": tierPick(tier, 3, 4)}, MustCover: []string{"file added", "loader added", "ordered custom loader added"}},
 					{Name: "load", Pkg: ioc + "/configure", Entry: "VerifC15Load", Params: map[string]int{"N": tierPick(tier, 3, 4)}, MustCover: []string{"several loaders", "loader failed"}},
 				}
 			},
@@ -188,16 +188,20 @@ func checkDefs() map[string]*CheckDef {
 		&CheckDef{ID: "C16", Title: "Placeholders",
 			Runs: func(tier string) []RunSpec {
 				t := ExecOpts{Termination: true, MaxSteps: 1500000}
-				return []RunSpec{
+				rs := []RunSpec{
 					{Name: "structured", Pkg: prc, Entry: "VerifC16Structured", Params: map[string]int{"L": 1, "D": 2, "V": tierPick(tier, 2, 3)}, MustCover: []string{"configured value used", "default used", "absent without default", "default containing a colon"}, Opts: t},
 					{Name: "nested", Pkg: prc, Entry: "VerifC16Nested", MustCover: []string{"nested key present", "nested key absent"}, Opts: t},
 					{Name: "cyclic", Pkg: prc, Entry: "VerifC16Cyclic", MustCover: []string{"circular reference reported as an error", "resolution terminates"}, Opts: t},
 					rh("placeholder-in-wire-tag", "VerifC07", map[string]int{"K": 1, "PORDER": 0}, "name given through a placeholder"),
-					{Name: "total", Pkg: prc, Entry: "VerifC16Total", Params: map[string]int{"N": tierPick(tier, 5, 6), "M": 1}, MustCover: []string{"resolution terminates"}, Opts: t},
+					{Name: "total", Pkg: prc, Entry: "VerifC16Total", Params: map[string]int{"N": 5, "M": 1}, MustCover: []string{"resolution terminates"}, Opts: t},
 				}
+				if tier == "thorough" {
+					rs = append(rs, RunSpec{Name: "total-6-ascii", Pkg: prc, Entry: "VerifC16Total", Params: map[string]int{"N": 6, "M": 1, "ASCII": 1}, MustCover: []string{"resolution terminates"}, Opts: t})
+				}
+				return rs
 			},
 			LevelText: "Bounded symbolic model checking of the real configQuoteAwarePostProcessors.PostProcessProperties, el.ReplaceAllContent/MatchString and strconv2.ParseAny/FormatAny: structured tags pre ${a} mid ${b[:d]} post with symbolic literal text, values and defaults (present / absent / empty map / empty list), a placeholder nested in a key, every byte string of length <= N as tag text, and configured values that refer to themselves or to each other (termination as an unwinding assertion).",
-			LevelNote: "Bounds: literal parts <=1 byte, values <=2 (3) bytes, letter-only defaults <=2 bytes (number-like, boolean-like, quoted and bracketed defaults are re-formatted by ParseAny/FormatAny, see C17), arbitrary tags <=5 (6) bytes with plain configured values. regexp is a Go-source model of the two placeholder patterns validated against the real regexp; non-string configured scalars and JSON-shaped values are outside.",
+			LevelNote: "Bounds: literal parts <=1 byte, values <=2 (3) bytes, defaults of letters and blanks <=2 bytes (number-like, boolean-like, quoted and bracketed defaults are re-formatted by ParseAny/FormatAny, see C17), arbitrary tags <=5 bytes over all byte values (thorough: additionally <=6 ASCII bytes; the case-folding model is byte-wise, so longer non-ASCII defaults are outside) with plain configured values. regexp is a Go-source model of the two placeholder patterns validated against the real regexp; non-string configured scalars and JSON-shaped values are outside.",
 			Technique: techDefault, DesignRef: "DESIGN.md §3 C16"},
 	)
 	rhc := func(name, entry string, p map[string]int, cover ...string) RunSpec {
@@ -293,13 +297,14 @@ func checkDefs() map[string]*CheckDef {
 			Runs: func(tier string) []RunSpec {
 				return []RunSpec{
 					{Name: "stage-order", Pkg: prc, Entry: "VerifC18Order", Params: map[string]int{"EXTRA": tierPick(tier, 1, 2)}, MustCover: []string{"sorted"}},
-					{Name: "expression-data-flow", Pkg: prc, Entry: "VerifC18Expr", MustCover: []string{"evaluated", "literal text before the expression"}},
+					{Name: "expression-data-flow", Pkg: prc, Entry: "VerifC18Expr", MustCover: []string{"evaluated", "literal text before the expression", "placeholder nested in a placeholder inside the expression"}},
 					{Name: "numeric-expression-family", Pkg: prc, Entry: "VerifC18ExprNumbers", MustCover: []string{"numeric expression evaluated", "boolean result"}},
 					{Name: "validation-glue", Pkg: prc, Entry: "VerifC18Validate", Params: map[string]int{"N": tierPick(tier, 3, 4)}, MustCover: []string{"constraint violated", "constraint satisfied"}},
+					{Name: "struct-validation", Pkg: prc, Entry: "VerifC18ValidateStruct", MustCover: []string{"struct constraint violated", "struct constraint satisfied", "only the required nested struct is empty"}},
 				}
 			},
-			LevelText: "Bounded symbolic model checking of the glue in go-kid/ioc's own code: (a) the nine real processor objects plus extra user processors of symbolic class and 64-bit Order are sorted by the real SortOrderedComponents and configQuote < expression < {value, properties} < validate always holds; (b) real configQuote then expression then value processors on pre #{e1 ${k} e2} post: the text compiled is exactly the substituted text and the field receives pre+result+post; (c) the real validate processor fails exactly when the validator rejects the bound value, for fields with and without a validate argument, required and optional.",
-			LevelNote: "Reduced claim: what expr-lang computes and which values go-playground/validator rejects are outside. On SYMBOLIC operands expr.Compile/Run is an uninterpreted injective function of the text and the validator's verdict an uninterpreted function of (value, constraint), except required/min/max/omitempty on ASCII strings, which are modelled; on CONCRETE operands the engine calls the real expr-lang and the real validator natively (they are linked into the engine), so the concrete expression family and concrete values are decided by the libraries themselves. Natively the same harness uses the real libraries on both sides (sampled paths are replayed).",
+			LevelText: "Bounded symbolic model checking of the glue in go-kid/ioc's own code: (a) the nine real processor objects plus extra user processors of symbolic class and 64-bit Order are sorted by the real SortOrderedComponents and configQuote < expression < {value, properties} < validate always holds; (b) real configQuote then expression then value processors on pre #{e1 ${k} e2} post: the text compiled is exactly the substituted text and the field receives pre+result+post; (c) the real validate processor fails exactly when the validator rejects the bound value, for fields with and without a validate argument, required and optional; (c') a bound struct (by value and through a pointer; required scalar, required nested struct, omitempty+min) fails start-up exactly when the real validator with the documented options rejects it.",
+			LevelNote: "Reduced claim: what expr-lang computes and which values go-playground/validator rejects are outside. On SYMBOLIC operands expr.Compile/Run is an uninterpreted injective function of the text and the validator's verdict an uninterpreted function of (value, constraint), except required/min/max/omitempty on ASCII strings, which are modelled; on CONCRETE operands the engine calls the real expr-lang and the real validator natively (they are linked into the engine), so the concrete expression family and concrete values are decided by the libraries themselves (concrete structs are rebuilt with reflect.StructOf carrying the declared validate tags, and the validator handle carries the options the code under test constructed it with). Natively the same harness uses the real libraries on both sides (sampled paths are replayed).",
 			Technique: techDefault + "; third-party interpreters as uninterpreted functions", DesignRef: "DESIGN.md §3 C18"},
 	)
 	defs = append(defs,
@@ -316,13 +321,14 @@ func checkDefs() map[string]*CheckDef {
 				return []RunSpec{
 					{Name: "load-or-store-fn", Pkg: ioc + "/util/sync2", Entry: "VerifC20LoadOrStoreFn", MustCover: []string{"same key", "different keys"}, Opts: il(tierPick(tier, 3, 4))},
 					{Name: "map-linearizable", Pkg: ioc + "/util/sync2", Entry: "VerifC20Linearizable", Params: map[string]int{"OPS": tierPick(tier, 1, 2), "KEYS": tierPick(tier, 2, 1)}, MustCover: []string{"history checked"}, Opts: il(2)},
+					{Name: "range-with-writer", Pkg: ioc + "/util/sync2", Entry: "VerifC20Range", MustCover: []string{"range history checked", "Range concurrent with a Delete"}, Opts: il(tierPick(tier, 3, 5))},
 					{Name: "set", Pkg: ioc + "/util/list", Entry: "VerifC20Set", Params: map[string]int{"OPS": tierPick(tier, 1, 2)}, MustCover: []string{"set history checked", "generic set"}, Opts: il(2)},
-					{Name: "scan-phase-races", Pkg: fac, Entry: "VerifC20Scan", Params: map[string]int{"N": tierPick(tier, 3, 4)}, MustCover: []string{"several scanners fail at the same time"}, Opts: ExecOpts{Sched: "join", Races: true, RealSyslog: true}},
+					{Name: "scan-phase-races", Pkg: fac, Entry: "VerifC20Scan", Params: map[string]int{"N": tierPick(tier, 3, 5)}, MustCover: []string{"several scanners fail at the same time"}, Opts: ExecOpts{Sched: "join", Races: true, RealSyslog: true}},
 					{Name: "close-races", Pkg: app, Entry: "VerifC14", Params: map[string]int{"N": 3}, MustCover: []string{"several closers"}, Opts: ExecOpts{Sched: "join", Races: true, RealSyslog: true}},
 				}
 			},
-			LevelText: "Bounded symbolic model checking with engine goroutines: (a) sync2.Map.{Load,Store,LoadOrStore,LoadOrStoreFn,Delete} and ConcurrentSets.{Put,Exists,Remove} from two goroutines under every interleaving of their visible operations (bounded context switches): two load-or-stores never both win, every history is linearizable (checker written in the harness); (b) the real applyDefinitionRegistryPostProcessors (real tag scanner + scanners failing on solver-chosen components) and App.Close under the adversarial-join schedule with a happens-before race detector (vector clocks over spawn, WaitGroup, Mutex, sync.Map entries, atomics, channels): no two unordered conflicting accesses to one heap cell.",
-			LevelNote: "Bounds: 2 goroutines x 1 (2) operations over 2 (1) keys, <=2-4 preemptive context switches; <=3 (4) scanned components. sync.Map, sync.Mutex, sync.WaitGroup and sync/atomic are trusted models (each method one atomic step); memory model = sequential consistency + happens-before bookkeeping; preemption inside user callbacks, the stdlib log.Logger (one atomic step), viper and Range concurrent with writers are outside; go-kid/ioc's own syslog package IS executed from SSA in the two race runs (its per-prefix logger instances are shared by the goroutines). Counterexamples are replayed natively (go test -race / a barrier inside the LoadOrStoreFn callback). Honest note: operations, keys and schedules are explored by forking (explicit-state exploration inside the symbolic executor); the SMT solver has almost nothing to decide in these runs.",
+			LevelText: "Bounded symbolic model checking with engine goroutines: (a) sync2.Map.{Load,Store,LoadOrStore,LoadOrStoreFn,Delete} and ConcurrentSets.{Put,Exists,Remove} from two goroutines under every interleaving of their visible operations (bounded context switches): two load-or-stores never both win, every history is linearizable (checker written in the harness), and a Range running concurrently with a Delete/Store/LoadOrStore/LoadOrStoreFn hands out only mappings some caller stored, visits no key twice and misses no untouched key; (b) the real applyDefinitionRegistryPostProcessors (real tag scanner + scanners failing on solver-chosen components) and App.Close under the adversarial-join schedule with a happens-before race detector (vector clocks over spawn, WaitGroup, Mutex, sync.Map entries, atomics, channels): no two unordered conflicting accesses to one heap cell.",
+			LevelNote: "Bounds: 2 goroutines x 1 (2) operations over 2 (1) keys, <=2-4 preemptive context switches; <=3 (5) scanned components, at most 8 live goroutines. sync.Map, sync.Mutex, sync.WaitGroup and sync/atomic are trusted models (each method one atomic step); memory model = sequential consistency + happens-before bookkeeping; preemption inside user callbacks, the stdlib log.Logger (one atomic step), viper is outside; go-kid/ioc's own syslog package IS executed from SSA in the two race runs (its per-prefix logger instances are shared by the goroutines). Counterexamples are replayed natively (go test -race / a barrier inside the LoadOrStoreFn callback). Honest note: operations, keys and schedules are explored by forking (explicit-state exploration inside the symbolic executor); the SMT solver has almost nothing to decide in these runs.",
 			Technique: techDefault + "; goroutine schedules as symbolic choices; happens-before race detection in the executor", DesignRef: "DESIGN.md §3 C20"},
 	)
 	// the integration graph run (real App.initiate + run) is cheap and serves several properties
